@@ -900,6 +900,9 @@ int32 matrixSslGetReadbufOfSize(ssl_t *ssl, int32 size, unsigned char **buf)
         if ((p = psRealloc(ssl->inbuf, ssl->inlen + size, ssl->bufferPool))
             == NULL)
         {
+            /* realloc left the old block allocated: release it, it is
+               dropped here */
+            psFree(ssl->inbuf, ssl->bufferPool);
             ssl->inbuf = NULL; ssl->insize = 0; ssl->inlen = 0;
             return PS_MEM_FAIL;
         }
